@@ -414,6 +414,7 @@ func TestVerifRegistry(t *testing.T) {
 //	OT | OS        open a new incarnation of the target / source pair (no settling: overlaps what is still shutting down)
 //	BT k | BS k    break incarnation k's stream (no settling)
 //	FT | FS        the local server refuses the next stream the target / source pair's receiver opens towards it
+//	P              settle; report what the newest target incarnation received since it opened (the pending watermark replay)
 //	W              settle; report registries and which handlers are still running
 //	M h            the source emits watermark h; settle; report what the newest target incarnation received
 //	A h            the newest target incarnation acknowledges h; settle; report what the source received
@@ -486,6 +487,10 @@ func vgRunStreams(t *testing.T, lines []string, out func(string)) {
 			// a very short overlap
 			runtime.Gosched()
 			continue
+		case "Z":
+			// long enough for a freshly opened incarnation to register while its predecessor is still up
+			time.Sleep(30 * time.Millisecond)
+			continue
 		case "W":
 			vgSettle()
 			sc.report(func(string) {})
@@ -507,6 +512,12 @@ func vgRunStreams(t *testing.T, lines []string, out func(string)) {
 			ci := sm.GetChannelInfo()
 			out(fmt.Sprintf("REG local=%d send=%d ack=%d cancel=%d active=%d view=%d/%d/%d aliveT=%s aliveS=%s", local, send, ack, can, act,
 				len(sm.GetLocalShards()), ci.TotalSendChannels, ci.TotalAckChannels, alive(tInc), alive(sInc)))
+		case "P":
+			// what the newest target incarnation has received so far without the source sending anything new: the pending
+			// watermark has to be replayed to it
+			vgSettle()
+			out("P")
+			sc.report(out)
 		case "M":
 			cs := sc.reverse.current(history.ClusterShardID{ClusterID: vrSrcCluster, ShardID: 1})
 			if cs != nil {
